@@ -9,5 +9,6 @@ def run(tier, seed, replay):
         PID, tier, seed, replay, "Escrow_Trace",
         COMMON + ["-n", "50", "-blocks", "40"],
         COMMON + ["-n", "400", "-blocks", "60"],
-        "Escrow.tla: oracle account = sum of open-query tips (exact), tips escrow pool >= sum of 18-decimal credits (tolerance 10^-18 per credit, the one C09 states), bridge account = 0, credits ever given <= coins ever paid into the pool, tips land with their query, withdrawals take exactly the whole-coin credit, no entitled claim fails for lack of funds. Recorded production-app histories (reporter/selector topologies with several validators per selector, commissions 0..1 and the out-of-range ones of finding F-12, selectors joining/leaving) validated by TLC after every operation.",
-        ["the dispute-account clause (escrowed stake + fees + voter pots) is decided by the C13 conservation spec", "credits compared scaled by 10^18 with one 10^-18 unit of tolerance per credit given"])
+        "RewardSM_MC (design level, shared with C09): tip -> oracle account -> tips escrow pool -> selector credits -> whole-coin withdrawals, exhaustively within small bounds: oracle account = open tips, pool covers credits, every coin tipped is burned, waiting, in the pool or withdrawn. Escrow.tla: oracle account = sum of open-query tips (exact), tips escrow pool >= sum of 18-decimal credits (tolerance 10^-18 per credit, the one C09 states), bridge account = 0, credits ever given <= coins ever paid into the pool, tips land with their query, withdrawals take exactly the whole-coin credit, no entitled claim fails for lack of funds. Recorded production-app histories (reporter/selector topologies with several validators per selector, commissions 0..1 and the out-of-range ones of finding F-12, selectors joining/leaving) validated by TLC after every operation.",
+        ["the dispute-account clause (escrowed stake + fees + voter pots) is decided by the C13 conservation spec", "credits compared scaled by 10^18 with one 10^-18 unit of tolerance per credit given"],
+        mc=[("RewardSM_MC", "RewardSM_MC.cfg", "RewardSM_MC_thorough.cfg", 8)])
